@@ -10,8 +10,11 @@ package c03
 
 import (
 	"context"
+	"crypto/sha256"
+	"crypto/sha512"
 	"crypto/tls"
 	"crypto/x509"
+	"encoding/binary"
 	"fmt"
 	"net"
 	"os"
@@ -39,6 +42,83 @@ func sameKey(a bcrypto.PubKey, id *keys.Identity) bool {
 	return a != nil && a.Equals(id.Pub)
 }
 
+// expKinds: the expected-peer constraints a chain is verified under. "any" = none,
+// "K" = the id of the key that signed the binding, "other" = the (identity
+// multihash) id of another key; the rest are WELL-FORMED peer ids (accepted by
+// peer.IDFromBytes / IDB58Decode) that are not the id of K nor of any key the
+// code can handle: non-identity multihashes (the legacy sha2-256 "Qm..." form
+// of K's key, of another key, of no key at all; other hash codes) and identity
+// multihashes embedding a key of an unsupported type / a damaged key. A caller
+// that requires such an id R may only ever get a handshake with a remote whose
+// id IS R; every bifrost peer id is the identity multihash of a supported key,
+// so every handshake must be refused.
+var expKinds = []string{"any", "K", "other",
+	"sha256-of-K", "sha256-of-other", "sha256-of-K-raw-key", "sha256-of-nothing", "sha256-empty-digest", "sha512-of-K", "blake3-code-of-K",
+	"identity-K-keytype-0", "identity-K-keytype-2", "identity-K-keytype-77", "identity-K-key-truncated", "identity-other-keytype-3"}
+
+func multihash(code uint64, digest []byte) peer.ID {
+	out := binary.AppendUvarint(nil, code)
+	out = binary.AppendUvarint(out, uint64(len(digest)))
+	return peer.ID(append(out, digest...))
+}
+
+// pbKeyOfType: identity public key message with another key type (0 is the proto default: field omitted).
+func pbKeyOfType(id *keys.Identity, typ byte) []byte {
+	raw := []byte(stdPub(id))
+	var out []byte
+	if typ != 0 {
+		out = append(out, 0x08, typ)
+	}
+	out = append(out, 0x12, byte(len(raw)))
+	return append(out, raw...)
+}
+
+// requiredID builds the expected-peer id of a kind; wellFormed = peer.IDFromBytes accepts it (or it is empty).
+func requiredID(kind string, K, O *keys.Identity) (id peer.ID, wellFormed bool) {
+	s256 := func(b []byte) []byte { d := sha256.Sum256(b); return d[:] }
+	switch kind {
+	case "any":
+		return "", true
+	case "K":
+		return K.ID, true
+	case "other":
+		return O.ID, true
+	case "sha256-of-K":
+		id = multihash(0x12, s256(pbPubKey(K)))
+	case "sha256-of-other":
+		id = multihash(0x12, s256(pbPubKey(O)))
+	case "sha256-of-K-raw-key":
+		id = multihash(0x12, s256([]byte(stdPub(K))))
+	case "sha256-of-nothing":
+		id = multihash(0x12, s256(append([]byte("c03: a digest of no key: "), pbPubKey(K)...)))
+	case "sha256-empty-digest":
+		id = multihash(0x12, nil)
+	case "sha512-of-K":
+		d := sha512.Sum512(pbPubKey(K))
+		id = multihash(0x13, d[:])
+	case "blake3-code-of-K":
+		id = multihash(0x1e, s256(pbPubKey(K)))
+	case "identity-K-keytype-0":
+		id = multihash(0, pbKeyOfType(K, 0))
+	case "identity-K-keytype-2":
+		id = multihash(0, pbKeyOfType(K, 2))
+	case "identity-K-keytype-77":
+		id = multihash(0, pbKeyOfType(K, 77))
+	case "identity-other-keytype-3":
+		id = multihash(0, pbKeyOfType(O, 3))
+	case "identity-K-key-truncated":
+		pb := pbPubKey(K)
+		id = multihash(0, pb[:len(pb)-1])
+	default:
+		panic("unknown expected-peer kind " + kind)
+	}
+	if id == K.ID || id == O.ID {
+		panic("harness: required id shape " + kind + " collides with a real id")
+	}
+	got, err := peer.IDFromBytes([]byte(id))
+	return id, err == nil && got == id
+}
+
 // histCtx places a chain evaluation inside a history of earlier evaluations in
 // the same process (nil = the chain is new to the process and so are all its parts).
 type histCtx struct {
@@ -48,12 +128,10 @@ type histCtx struct {
 
 func evalChain(r *vf.Run, b *builtChain, pool []*keys.Identity, verifier *p2ptls.Identity, expKind string, hc *histCtx) {
 	K := pool[b.Spec.K]
-	var expected peer.ID
-	switch expKind {
-	case "K":
-		expected = K.ID
-	case "other":
-		expected = pool[b.Spec.Other].ID
+	expected, wellFormed := requiredID(expKind, K, pool[b.Spec.Other])
+	if !wellFormed {
+		r.Count("required_id_shapes_refused_by_IDFromBytes", 1)
+		return
 	}
 	sig := fmt.Sprintf("%s|%s|crit=%v|pos=%d|exp=%s", b.Spec.Variant, b.Spec.CertKey, b.Spec.Critical, b.Spec.Pos, expKind)
 	vkey := b.Spec.Variant
@@ -64,6 +142,8 @@ func evalChain(r *vf.Run, b *builtChain, pool []*keys.Identity, verifier *p2ptls
 	wit := func(extra map[string]any) map[string]any {
 		w := b.witness()
 		w["expected_peer_constraint"] = expKind
+		w["expected_peer_id"] = expected.String()
+		w["expected_peer_id_hex"] = fmt.Sprintf("%x", string(expected))
 		w["identity_K"] = K.ID.String()
 		if hc != nil {
 			w["history_position"] = hc.pos
@@ -125,7 +205,7 @@ func evalChain(r *vf.Run, b *builtChain, pool []*keys.Identity, verifier *p2ptls
 	}
 	r.Count("VerifyPeerCertificate_calls", 1)
 	acceptDemanded := b.Class == mustAccept && (expKind == "any" || expKind == "K")
-	rejectDemanded := b.Class == mustReject || expKind == "other"
+	rejectDemanded := b.Class == mustReject || (expKind != "any" && expKind != "K")
 	switch {
 	case panicked:
 		r.Violation("chain:VerifyPeerCertificate:panic:"+vkey, "VerifyPeerCertificate panicked: "+pd, wit(nil))
@@ -135,6 +215,9 @@ func evalChain(r *vf.Run, b *builtChain, pool []*keys.Identity, verifier *p2ptls
 	case err == nil && expKind == "other":
 		r.Violation("chain:VerifyPeerCertificate:accepted-wrong-peer:"+vkey,
 			"the handshake verifier accepted peer K although the caller required a different peer", wit(nil))
+	case err == nil && expKind != "any" && expKind != "K":
+		r.Violation("chain:VerifyPeerCertificate:accepted-although-required-id-is-not-the-peers:"+expKind+":"+vkey,
+			"the handshake verifier accepted peer K although the caller required the well-formed peer id "+expected.String()+" ("+expKind+"), which is not K's id (no key has that id)", wit(nil))
 	case err == nil && !sameKey(key, K):
 		r.Violation("chain:VerifyPeerCertificate:wrong-key:"+vkey,
 			"the handshake verifier accepted but delivered no key / a key other than the one that signed the binding", wit(nil))
@@ -440,7 +523,9 @@ func transportCases(r *vf.Run, pool []*keys.Identity, nVariantRounds int) []tcas
 	var out []tcase
 	// identities: 0 = L (honest local), 1 = X (honest / victim), 2 = Y (honest other / hostile's own key)
 	tvariants := []string{"valid", "valid-critical", "ext-embeds-other-key", "ext-signed-by-other-key", "ext-lifted-from-other-cert",
-		"ext-wrong-prefix", "ext-missing", "ext-byte-flipped-content", "signed-by-other-key-same-name", "signed-by-ca", "chain-two-distinct", "chain-two-same", "chain-empty"}
+		"ext-wrong-prefix", "ext-missing", "ext-byte-flipped-content", "signed-by-other-key-same-name", "signed-by-ca", "chain-two-distinct", "chain-two-same", "chain-empty",
+		"notself-unknown-alg", "notself-unknown-alg-tbs-resigned", "notself-two-unknown-algs", "notself-unknown-alg-outer-only", "notself-refused-alg", "notself-other-known-alg",
+		"selfsig-bit-flipped", "selfsig-empty", "selfsig-of-other-cert"}
 	mk := func(v string, certKey string) *builtChain {
 		spec := chainSpec{Variant: v, K: 2, Other: 1, CertKey: certKey, Critical: v == "valid-critical"}
 		switch v {
@@ -449,6 +534,9 @@ func transportCases(r *vf.Run, pool []*keys.Identity, nVariantRounds int) []tcas
 		case "ext-byte-flipped-content":
 			spec.Variant = "ext-byte-flipped"
 			spec.Pos = 8 + rng.IntN(32) // inside the embedded key bytes
+		}
+		if strings.HasPrefix(v, "notself-") || strings.HasPrefix(v, "selfsig-") {
+			spec.Pos = rng.IntN(1 << 16) // which algorithm OID / which signature byte
 		}
 		return build(spec, pool, rng)
 	}
@@ -483,9 +571,28 @@ func transportCases(r *vf.Run, pool []*keys.Identity, nVariantRounds int) []tcas
 	return out
 }
 
-// requiredPeerCases: honest parties only; the caller requires peer X and X or Y answers.
+// requiredPeerCases: honest parties only; the caller requires a peer and X or Y
+// answers. The required id is X's id ("K": only X may be accepted) or a
+// well-formed id of another shape derived from X's resp. Y's key (see expKinds:
+// no peer may be accepted, whoever answers).
 func requiredPeerCases(pool []*keys.Identity, round int) []tcase {
 	var out []tcase
+	for _, reqKind := range []string{"K", "sha256-of-K", "sha256-of-other", "sha256-of-nothing", "sha512-of-K", "identity-K-keytype-0", "identity-K-key-truncated"} {
+		out = append(out, requiredPeerCasesFor(pool, round, reqKind)...)
+	}
+	return out
+}
+
+func requiredPeerCasesFor(pool []*keys.Identity, round int, reqKind string) []tcase {
+	var out []tcase
+	req, wellFormed := requiredID(reqKind, pool[1], pool[2])
+	if !wellFormed {
+		return nil
+	}
+	sfx, ksfx, reqName := "", "", "X"
+	if reqKind != "K" {
+		sfx, ksfx, reqName = ":"+reqKind, ":"+reqKind, "the well-formed id "+req.String()+" ("+strings.ReplaceAll(strings.ReplaceAll(reqKind, "K", "X"), "other", "Y")+")"
+	}
 	for _, who := range []int{1, 2} { // who really answers / dials: X or Y
 		who := who
 		tag := "X-answers"
@@ -493,18 +600,19 @@ func requiredPeerCases(pool []*keys.Identity, round int) []tcase {
 			tag = "Y-answers"
 		}
 		X := pool[1]
+		mayAccept := reqKind == "K" && who == 1
 		// DialPeer(X, A) on a real pconn transport
-		out = append(out, tcase{fmt.Sprintf("required-dialpeer/%s/%d", tag, round), func(e *tenv) bool {
+		out = append(out, tcase{fmt.Sprintf("required-dialpeer%s/%s/%d", sfx, tag, round), func(e *tenv) bool {
 			L := e.honest("L-home", pool[0])
 			R := e.honest("R-home", pool[who])
 			e.n.Serve("A", R.EP)
 			e.mu.Lock()
 			e.truth["A"] = pool[who].ID
 			e.mu.Unlock()
-			e.logf("honest L: DialPeer(X, A); A served by honest %s", tag)
+			e.logf("honest L: DialPeer(%s, A); A served by honest %s", reqName, tag)
 			dctx, cancel := context.WithTimeout(e.ctx, watchdog)
 			defer cancel()
-			lnk, _, err := L.Tpt.DialPeer(dctx, X.ID, "A")
+			lnk, _, err := L.Tpt.DialPeer(dctx, req, "A")
 			if dctx.Err() != nil {
 				e.r.Inconclusive(e.name + ": dial did not conclude")
 				return false
@@ -512,22 +620,22 @@ func requiredPeerCases(pool []*keys.Identity, round int) []tcase {
 			e.r.Count("handshakes_required_peer", 1)
 			if err == nil {
 				e.logf("DialPeer succeeded with a link to %s", lnk.GetRemotePeer().String())
-				if who != 1 {
-					e.r.Violation("required-peer:DialPeer-succeeded-with-other-peer",
-						"DialPeer required peer X, a different peer answered, and the dial still succeeded (link names "+lnk.GetRemotePeer().String()+")", e.witness(nil))
+				if !mayAccept {
+					e.r.Violation("required-peer:DialPeer-succeeded-with-other-peer"+ksfx,
+						"DialPeer required peer "+reqName+", a peer with a different id answered, and the dial still succeeded (link names "+lnk.GetRemotePeer().String()+")", e.witness(nil))
 				} else if lnk.GetRemotePeer() != X.ID {
 					e.r.Violation("link:names-wrong-peer:required-dialpeer", "link names "+lnk.GetRemotePeer().String(), e.witness(nil))
 				}
 			} else {
 				e.logf("DialPeer failed: %v", err)
-				if who == 1 {
+				if mayAccept {
 					e.r.Violation("required-peer:DialPeer-refused-the-required-peer", "DialPeer(X) failed although X answered: "+err.Error(), e.witness(nil))
 				}
 			}
 			return true
 		}})
 		// DialSession with rpeer = X
-		out = append(out, tcase{fmt.Sprintf("required-dialsession/%s/%d", tag, round), func(e *tenv) bool {
+		out = append(out, tcase{fmt.Sprintf("required-dialsession%s/%s/%d", sfx, tag, round), func(e *tenv) bool {
 			R := e.honest("R-home", pool[who])
 			e.n.Serve("A", R.EP)
 			ident, err := p2ptls.NewIdentity(pool[0].Priv)
@@ -541,8 +649,8 @@ func requiredPeerCases(pool []*keys.Identity, round int) []tcase {
 			e.mu.Unlock()
 			dctx, cancel := context.WithTimeout(e.ctx, watchdog)
 			defer cancel()
-			e.logf("DialSession(rpeer=X) to A served by honest %s", tag)
-			sess, key, err := transport_quic.DialSession(dctx, g5net.QuietLogger(), &transport_quic.Opts{MaxIdleTimeoutDur: "1s"}, ep, ident, g5net.Addr("A"), X.ID)
+			e.logf("DialSession(rpeer=%s) to A served by honest %s", reqName, tag)
+			sess, key, err := transport_quic.DialSession(dctx, g5net.QuietLogger(), &transport_quic.Opts{MaxIdleTimeoutDur: "1s"}, ep, ident, g5net.Addr("A"), req)
 			if dctx.Err() != nil {
 				e.r.Inconclusive(e.name + ": dial did not conclude")
 				return false
@@ -550,18 +658,18 @@ func requiredPeerCases(pool []*keys.Identity, round int) []tcase {
 			e.r.Count("handshakes_required_peer", 1)
 			if err == nil {
 				defer sess.CloseWithError(0, "")
-				if who != 1 {
-					e.r.Violation("required-peer:DialSession-succeeded-with-other-peer", "DialSession required X but succeeded against a different peer", e.witness(nil))
+				if !mayAccept {
+					e.r.Violation("required-peer:DialSession-succeeded-with-other-peer"+ksfx, "DialSession required "+reqName+" but succeeded against a peer with a different id ("+pool[who].ID.String()+")", e.witness(nil))
 				} else if !sameKey(key, X) {
 					e.r.Violation("required-peer:DialSession-wrong-key", "DialSession returned a key that is not X's", e.witness(nil))
 				}
-			} else if who == 1 {
+			} else if mayAccept {
 				e.r.Violation("required-peer:DialSession-refused-the-required-peer", "DialSession(X) failed although X answered: "+err.Error(), e.witness(nil))
 			}
 			return true
 		}})
 		// listen side: HandleConn(dial=false, peerID=X) and X / Y dials in
-		out = append(out, tcase{fmt.Sprintf("required-listen/%s/%d", tag, round), func(e *tenv) bool {
+		out = append(out, tcase{fmt.Sprintf("required-listen%s/%s/%d", sfx, tag, round), func(e *tenv) bool {
 			R := e.honest("R-home", pool[who])
 			ep := e.n.NewEndpoint("L-home")
 			defer ep.Close()
@@ -582,14 +690,14 @@ func requiredPeerCases(pool []*keys.Identity, round int) []tcase {
 			defer lcancel()
 			resCh := make(chan res, 1)
 			go func() {
-				lnk, err := qt.HandleConn(lctx, false, ep, g5net.Addr("R-home"), X.ID)
+				lnk, err := qt.HandleConn(lctx, false, ep, g5net.Addr("R-home"), req)
 				if err != nil {
 					resCh <- res{err: err}
 					return
 				}
 				resCh <- res{remote: lnk.GetRemotePeer()}
 			}()
-			e.logf("listener requires X (ListenSession rpeer=X); honest %s dials in", tag)
+			e.logf("listener requires %s (ListenSession rpeer); honest %s dials in", reqName, tag)
 			dctx, cancel := context.WithTimeout(e.ctx, watchdog)
 			defer cancel()
 			_, _, derr := R.Tpt.DialPeer(dctx, pool[0].ID, "L-home")
@@ -599,7 +707,7 @@ func requiredPeerCases(pool []*keys.Identity, round int) []tcase {
 			}
 			e.r.Count("handshakes_required_peer", 1)
 			e.logf("dialer result: %v", derr)
-			if who == 1 {
+			if mayAccept {
 				if derr != nil {
 					e.r.Violation("required-peer:listener-refused-the-required-peer", "listener requiring X refused X: "+derr.Error(), e.witness(nil))
 					return true
@@ -621,7 +729,7 @@ func requiredPeerCases(pool []*keys.Identity, round int) []tcase {
 				}
 				return true
 			}
-			// Y dialed. A TLS 1.3 client finishes before the server checked its
+			// a peer that must be refused dialed. A TLS 1.3 client finishes before the server checked its
 			// certificate, so Y's dial may "succeed" first; the listener's verdict is
 			// what counts: it returns a link (accepted) or Y's session dies (refused).
 			var rs *res
@@ -654,7 +762,7 @@ func requiredPeerCases(pool []*keys.Identity, round int) []tcase {
 				}
 			}
 			if rs != nil && rs.err == nil {
-				e.r.Violation("required-peer:listener-accepted-other-peer", "a listener requiring peer X returned a link to "+rs.remote.String(), e.witness(nil))
+				e.r.Violation("required-peer:listener-accepted-other-peer"+ksfx, "a listener requiring peer "+reqName+" returned a link to "+rs.remote.String(), e.witness(nil))
 			}
 			return true
 		}})
@@ -781,15 +889,29 @@ func TestCheck(t *testing.T) {
 	r.Begin(fmt.Sprintf("%d chain specs", len(specs)))
 	tC := time.Now()
 	defer func() { _ = tC }()
+	// chains are built in order (shared PRNG); the stateless evaluations run on 8 workers
+	evalCh := make(chan *builtChain, 64)
+	var evalWG sync.WaitGroup
+	for w := 0; w < 8; w++ {
+		evalWG.Add(1)
+		go func() {
+			defer evalWG.Done()
+			for b := range evalCh {
+				for _, ek := range expKinds {
+					evalChain(r, b, pool, verifier, ek, nil)
+				}
+			}
+		}()
+	}
 	for i, s := range specs {
 		b := build(s, pool, rng)
-		for _, ek := range []string{"any", "K", "other"} {
-			evalChain(r, b, pool, verifier, ek, nil)
-		}
+		evalCh <- b
 		if i < 3 {
 			r.Sample(map[string]any{"chain_spec": s, "class": b.Class.String(), "construction": b.Why})
 		}
 	}
+	close(evalCh)
+	evalWG.Wait()
 
 	fmt.Printf("section chain-specs %6.2fs\n", time.Since(tC).Seconds()) // diagnostics only
 	// ---- chain level, histories: forged chains built from parts of honest chains the process verifies before / after
